@@ -591,7 +591,6 @@ impl Tera {
         for name in ordered_names {
             let tpl = &self.templates[name];
             let parents = find_parents(self, tpl, tpl, vec![])?;
-            check_include_cycles(self, tpl)?;
             for component_name in tpl.components.keys() {
                 let current_priority = self.get_template_priority(&tpl.name);
 
@@ -626,6 +625,14 @@ impl Tera {
 
             tpl_parents.insert(name.clone(), parents);
             tpl_size_hint.insert(name.clone(), size_hint);
+        }
+
+        // Include cycles are looked for once all the parents are known: a template also renders
+        // the includes found in its parents
+        let mut ordered_names: Vec<&String> = self.templates.keys().collect();
+        ordered_names.sort();
+        for name in ordered_names {
+            check_include_cycles(self, &tpl_parents, &self.templates[name])?;
         }
 
         // Build components map from component_sources (needed for validation)
